@@ -54,6 +54,57 @@ type lHist struct {
 func lScenario(r *Rng, id int) lHist {
 	h := lHist{ID: id}
 	add := func(o lOp) { h.Ops = append(h.Ops, o) }
+	switch (id / 4) % 4 {
+	case 2:
+		// one account adds to the SAME locked commitment many times in a row (single-sided oracle-pool joins carry a one-hour
+		// lock; leveraged-LP top-ups consolidate into one position address) with nothing uncommitted in between: per-denom
+		// lock-up lists grow, anything done "per lock-up" or bounded by their number shows only after many adds
+		u := r.Intn(5)
+		lev := r.Chance(50)
+		n := 9 + r.Intn(5)
+		for j := 0; j < n; j++ {
+			if lev {
+				add(lOp{Op: "lev_open", U: u, Amt: r.Decade(6, 8).String(), Lev: []string{"2", "3"}[r.Intn(2)], P: "0"})
+			} else {
+				add(lOp{Op: "join", U: u, Pool: 0, Dir: 1 + r.Intn(2), Amt: r.Decade(6, 9).String()})
+			}
+			if r.Chance(25) {
+				add(lOp{Op: "blocks", N: 1, DT: r.Pick(5, 60, 3700)})
+			}
+			if r.Chance(15) { // an ordinary provider joins and leaves in between
+				add(lOp{Op: "join", U: (u + 1) % 5, Pool: 0, Dir: 0, Amt: r.Decade(5, 8).String()})
+			}
+		}
+		add(lOp{Op: "blocks", N: 1, DT: 3700})
+		add(lOp{Op: "exit", U: u, Pool: 0, Dir: 0, Rel: r.Intn(6)})
+		tail := lGenN(r, id, 6+r.Intn(8))
+		h.Ops = append(h.Ops, tail.Ops...)
+		return h
+	case 3:
+		// perpetual positions on BOTH sides (a funding rate exists), blocks pass (funding and interest accrue), then the
+		// popular side re-opens into its existing position (consolidation) and adds collateral with leverage 0
+		u1, u2 := r.Intn(5), r.Intn(5)
+		if u2 == u1 {
+			u2 = (u1 + 1) % 5
+		}
+		big, small := 0, 1
+		if r.Chance(30) {
+			big, small = 1, 0
+		}
+		add(lOp{Op: "perp_open", U: u1, Dir: big, Amt: r.Decade(8, 9).String(), Lev: []string{"2", "3", "5"}[r.Intn(3)]})
+		add(lOp{Op: "perp_open", U: u2, Dir: small, Amt: r.Decade(7, 8).String(), Lev: []string{"2", "3"}[r.Intn(2)]})
+		add(lOp{Op: "blocks", N: r.Pick(2, 3, 5), DT: r.Pick(60, 3700, 86400)})
+		add(lOp{Op: "perp_open", U: u1, Dir: big, Amt: r.Decade(7, 9).String(), Lev: []string{"1.5", "2", "3"}[r.Intn(3)]})
+		add(lOp{Op: "blocks", N: 1, DT: r.Pick(5, 3700)})
+		add(lOp{Op: "perp_open", U: u1, Dir: big, Amt: r.Decade(6, 8).String(), Lev: "0"})
+		if r.Chance(50) {
+			add(lOp{Op: "perp_open", U: u2, Dir: small, Amt: r.Decade(6, 8).String(), Lev: "0"})
+		}
+		add(lOp{Op: "blocks", N: 1, DT: 5})
+		tail := lGenN(r, id, 8+r.Intn(8))
+		h.Ops = append(h.Ops, tail.Ops...)
+		return h
+	}
 	perp := r.Chance(60)
 	k := 2 + r.Intn(3)
 	short := r.Chance(30)
@@ -148,7 +199,7 @@ func lGenN(r *Rng, id int, n int) lHist {
 		case x < 66:
 			h.Ops = append(h.Ops, lOp{Op: "lev_close_positions", U: u, Idx: r.Intn(4), Dir: r.Intn(2), N: r.Pick(1, 1, 2, 3, 8), Rel: r.Intn(2)})
 		case x < 74:
-			h.Ops = append(h.Ops, lOp{Op: "perp_open", U: u, Dir: r.Intn(4), Amt: r.Decade(3, 10).String(), Lev: []string{"1.2", "2", "3", "5", "10"}[r.Intn(5)], Rel: r.Intn(4)})
+			h.Ops = append(h.Ops, lOp{Op: "perp_open", U: u, Dir: r.Intn(4), Amt: r.Decade(3, 10).String(), Lev: []string{"1.2", "2", "3", "5", "10", "0"}[r.Intn(6)], Rel: r.Intn(4)})
 		case x < 79:
 			h.Ops = append(h.Ops, lOp{Op: "perp_close", U: u, Idx: r.Intn(4), Rel: r.Intn(6)})
 		case x < 83:
